@@ -161,6 +161,7 @@ func runC09(ctx *core.Ctx) {
 	})
 	c09MixedStream(ctx)
 	c09TTLStream(ctx)
+	c09ProducersStream(ctx)
 	for k, v := range sched.Hits() {
 		ctx.Count("hook_hits."+k, v)
 	}
